@@ -168,10 +168,10 @@ def gen_case(rng, tier, ctx, i):
         nodes = [n for n in refmodel.recipe_nodes(rec)[1:] if n.get("id") and n["k"] not in ("var", "str", "ref", "Not")]
         for n in rng.sample(nodes, min(len(nodes), rng.randint(1, 2))):
             n["fix"] = rng.choice([0, 1])
-    return {"recipe": rec, "seed": rng.getrandbits(32)}
+    return common.with_twins(rng, {"recipe": rec, "seed": rng.getrandbits(32)})
 
 
-def run_case(case, ctx):
+def _run_one(case, ctx):
     rng = random.Random(case["seed"])
     m0 = recipes.fresh(case["recipe"])
     if adapters.is_leaf(m0):
@@ -207,3 +207,16 @@ def run_case(case, ctx):
         v = puan.variable(lid, bounds=tuple(graph[lid]["b"]))
         val = rng.choice([rng.randint(-3, 3), (0, 1), puan.Bounds(1, 2), numpy.int64(2)])
         ctx.call("variable.evaluate", v.evaluate, {rng.choice([lid, "zz"]): val})
+
+
+def run_case(case, ctx):
+    """the base recipe, then its hostile twins (same ids, bounds/thresholds that collide under the library's hashes)"""
+    for k, rec in enumerate(common.recipes_of(case)):
+        sub = dict(case, recipe=rec)
+        sub.pop("twins", None)
+        if k:
+            ctx.count("count:twin-runs")
+        try:
+            _run_one(sub, ctx)
+        except monitor.OutOfScope:
+            ctx.count("case:out_of_scope" if k == 0 else "twin:out_of_scope")
